@@ -24,6 +24,10 @@ CLAIMED = {
  'C17': ('exploration', 'linearizability checking (porcupine) of concurrent histories on the real stats primitives + exact quiescent totals after bulk bursts; race detector; hook-point perturbation inside the two-word mean',
          'Histories from 8-32 goroutines on counter / rate total / mean / per-key bucket checked against sequential models, bulk bursts with exact totals, half of the children under the race detector (a race report in the stats primitives is a violation).',
          'Unit level only so far (pipeline-level counter exactness is planned with the end-to-end runs); mid-burst reads of the mean are unconstrained.', '4/C17'),
+
+ 'C13': ('exploration', 'online reference-model monitor on the hook event stream of the real token bucket under a virtual clock; concurrent waiters; race detector',
+         'Every state change of the real bucket is reported under its own mutex with the time the code used; the monitor replays the most permissive bucket the statement allows and checks window bound, token range, rate bounds, penalty rule and the direction of rate changes on each event.',
+         'Per bucket lifetime (no LFU eviction); event sequences are seeded samples; penalty rule is the lower bound implied by the statement.', '4/C13'),
 }
 NOT_BUILT = 'check not built yet in this session (planned, see DESIGN.md section 4)'
 
